@@ -32,9 +32,13 @@ func c05ExportMergeOrder(c *Ctx, p *Prog, pr, pp *packages.Package) {
 				return true
 			}
 			for _, a := range call.Args {
-				if se, ok := ast.Unparen(a).(*ast.SelectorExpr); ok && se.Sel.Name == "ExportName" {
-					inline[namedTypeName(pinfo.TypeOf(se.X))] = true
-				}
+				// the name itself, or the name passed through the quoting function
+				ast.Inspect(a, func(m ast.Node) bool {
+					if se, ok := m.(*ast.SelectorExpr); ok && se.Sel.Name == "ExportName" {
+						inline[namedTypeName(pinfo.TypeOf(se.X))] = true
+					}
+					return true
+				})
 			}
 			return true
 		})
@@ -65,6 +69,10 @@ func c05ExportMergeOrder(c *Ctx, p *Prog, pr, pp *packages.Package) {
 		if merges && elem != "" {
 			order = append(order, elem)
 		}
+	}
+	if len(inline) == 0 {
+		c.Undecided(rule, "printer: inline exports", "", "no declaration kind whose ExportName the printer writes with the declaration was found")
+		return
 	}
 	if len(order) < 2 {
 		c.Undecided(rule, "parser.parseModule", p.Pos(fd.Pos()), fmt.Sprintf("fewer than two inline-export merge loops found (%v)", order))
